@@ -441,6 +441,9 @@ static const Valuation valuations[] = {
     {"small", {{15000000, 22500000}, {31250000, 45000000}, {-57500000, -63750000}, {1000000, -1000000}}},
     {"edge", {{-1800000000, -850511288}, {1800000000, 850511288}, {0, 0}, {1799999999, -1}}},
     {"fine", {{133777771, 525162749}, {-1221234567, 377654321}, {1513141516, -338765433}, {-700000001, 789999999}}},
+    // as "small" but WITHOUT the per-ring offset: the rings of an area share their locations, as the specification's
+    // tokens literally do (a ring may start where the previous one ended; duplicate suppression is per ring)
+    {"shared", {{15000000, 22500000}, {31250000, 45000000}, {-57500000, -63750000}, {1000000, -1000000}}},
 };
 
 static osmium::Location loc_of(const Valuation& v, int j, const std::string& tok) {
@@ -458,8 +461,9 @@ static osmium::Location loc_of(const Valuation& v, int j, const std::string& tok
     int32_t x = v.base[t][0];
     int32_t y = v.base[t][1];
     // move towards the origin so that the range is never left
-    const int32_t dx = 1000003 * j;
-    const int32_t dy = 700001 * j;
+    const bool shared = std::strcmp(v.name, "shared") == 0;
+    const int32_t dx = shared ? 0 : 1000003 * j;
+    const int32_t dy = shared ? 0 : 700001 * j;
     x = x > 0 ? x - dx : x + dx;
     y = y > 0 ? y - dy : y + dy;
     return osmium::Location{x, y};
